@@ -1159,3 +1159,44 @@ func (p *Prog) transparentResult(call *ssa.Call, k *ssa.Function, idx int, d int
 	}
 	return res, have
 }
+
+// ReachingStore: for a read of a local variable that is assigned more than once, the value of the only assignment
+// that reaches the read (ok is false when several assignments, or the initial value, can reach it).
+func (p *Prog) ReachingStore(v ssa.Value) (ssa.Value, bool) {
+	ld, isL := v.(*ssa.UnOp)
+	if !isL || ld.Op != token.MUL {
+		return nil, false
+	}
+	al := p.addrAlloc(ld.X)
+	if al == nil {
+		return nil, false
+	}
+	sts := p.storesToAlloc[al]
+	if len(sts) == 1 {
+		return sts[0].Val, true
+	}
+	fn := Host(ld.Parent())
+	var defs []ssa.Instruction
+	for _, st := range sts {
+		if Host(st.Parent()) != fn {
+			return nil, false
+		}
+		defs = append(defs, st)
+	}
+	var reach []*ssa.Store
+	for i, dd := range defs {
+		var others []ssa.Instruction
+		for j, o := range defs {
+			if j != i {
+				others = append(others, o)
+			}
+		}
+		if p.PathExists(fn, dd, Is(ld), In(others), nil) {
+			reach = append(reach, sts[i])
+		}
+	}
+	if len(reach) == 1 && !p.PathExists(fn, nil, Is(ld), In(defs), nil) {
+		return reach[0].Val, true
+	}
+	return nil, false
+}
